@@ -524,6 +524,8 @@ def blind_flows(S, suite, keys, shapes, label="triv:blind"):
     for L, M, header in shapes:
         sk, pk = keys[rng.randrange(len(keys))]
         h = rand_header(rng) if header == "rand" else header
+        if header == "same":    # one key and one header for a family of shapes: only (L, M) differs between these issuances
+            sk, pk = keys[0]; h = b"same-header"
         if M == "absent":       # a commitment made with the committed-message list ABSENT (not empty): same as the empty list everywhere
             fl.append({"suite": suite, "sk": sk, "pk": pk, "header": h, "msgs": rand_msgs(rng, L), "cm": [], "commit_absent": True})
             continue
@@ -580,6 +582,9 @@ class C05:
         shapes += [(0, None, "rand"), (2, None, None), (5, None, b""), (2, "absent", "rand"), (0, "absent", None)]
         # signer-message counts on both sides of 16 and 32 (a multi-scalar fast path switched on by the count would sit there)
         shapes += [(5, 4, "rand"), (10, 1, "rand"), (1, 10, "rand"), (15, 1, "rand"), (16, 1, "rand"), (17, None, "rand"), (33, 0, "rand"), (60, 5, "rand")] + ([(17, 17, "rand"), (31, 2, "rand"), (32, 2, "rand"), (33, 8, "rand"), (64, 64, "rand"), (65, 1, "rand"), (129, 3, "rand")] if tier != "quick" else [])
+        # issuances that differ ONLY in the split of the same total L + M (one key, one header): anything the signer keeps between
+        # calls and keys by (key, header, total count) shows up here, in the first run or in the single-thread history pass
+        shapes += [(2, 1, "same"), (1, 2, "same"), (0, 3, "same"), (3, 0, "same"), (3, None, "same"), (0, 1, "same"), (1, 0, "same"), (1, None, "same")]
         stats = {"shapes": len(shapes), "pairs": 0}
         for suite in SUITES:
             keys = make_keys(S, suite, 3)
